@@ -43,9 +43,10 @@ CHECKS["C16"] = {
     "design_ref": "DESIGN.md §4 C16",
 }
 CHECKS["C10"] = {
-    "technique": "Lean 4 proof over M-RegAlloc (allocator invariant, window soundness for every size, statement neutrality, constant-pool index soundness) + op-by-op correspondence with the real BytecodeBuilder + self-checking size sweeps",
+    "technique": "Lean 4 proof over M-RegAlloc (allocator invariant, window soundness for every size, statement neutrality, constant-pool index soundness) + translator: inventory of the compiler's narrowing casts regenerated from the source and discharged by decide + op-by-op correspondence with the real BytecodeBuilder + self-checking size sweeps",
     "text": "alloc_fresh/reserve_fresh/window_sound (a register or window handed out is never live and lies inside the 8-bit file, or the request is refused - for every n), stmt_neutral (any properly nested op sequence "
-            "between save and restore leaves cursor and save stack unchanged: no cumulative register limit), addDedup_sound/index_stable (16-bit constant indices never wrap, stay valid) are Lean theorems over all states/op lists. "
+            "between save and restore leaves cursor and save stack unchanged: no cumulative register limit), addDedup_sound/index_stable (16-bit constant indices never wrap, stay valid) are Lean theorems over all states/op lists; narrowing_reviewed is the obligation over the inventory of narrowing casts "
+            "(`as u8`, `as u16`, `as JumpTarget`, ...) re-extracted from src/compiler/*.rs on every run, with multiplicity: a new cast breaks the build until reviewed. "
             "The model is compared op by op with the real allocator and constant pool (incl. >65535 constants); whole-program size sweeps (16 construct families, n = 0..600 dense at 2^7/2^8, cumulative families to 3000+, "
             "constant families around 2^16) must give the closed-form value or an explicit limit error, with a canary variable.",
     "note": "Read from the source, not proved: that the compiler requests windows only through reserve_registers_for and brackets every statement with save/restore. Known finding: the constant-pool limit is per chunk (cumulative over statements).",
@@ -163,8 +164,10 @@ CHECKS["C03"] = {
 CHECKS["C05"] = {
     "technique": "Lean 4 proof over M-Parse (work of speculative parsing with/without the failure memo, recursion depth under the guard, depth of loop-built chains - for every nesting structure) + deterministic lexer-work counter of the real front end against the model's bounds + abort/panic/loop search over generated inputs on a 2 MB thread",
     "text": "costFirst_le / costFirst_quadratic (with the failure memo a speculative parse of any nesting structure costs at most size x depth <= size^2 construct visits), costNaive_chain (without it k nested constructs cost 2^(k+1)-1), "
-            "guard_bounds_recursion / guard_accepts_iff (the guarded descent never enters a level beyond limit+1 and accepts exactly by depth, monotonically), leftDeep_depth are Lean theorems over all skeletons. "
-            "The real parser+compiler run every input on a 2 MB thread with the cfg(tsrun_verif) token counter and a work budget: 70 nesting/chain families up to 200000 levels (doubling sizes: growth at most quadratic; acceptance monotone), "
+            "guard_bounds_recursion / guard_accepts_iff (the guarded descent never enters a level beyond limit+1 and accepts exactly by depth, monotonically), leftDeep_depth, "
+            "chain_accounting_bounds_depth (whatever the parser's accounting of loop-built chains accepts - chains in heads, operands and nested constructs, in any distribution - is at most MAX_CHAIN levels deeper than the parser's own guarded recursion; "
+            "nestedChains_tdepth exhibits the family a per-loop limit lets through) are Lean theorems over all skeletons / trees; limits_sane is the obligation over the constants re-extracted from the source. "
+            "The real parser+compiler run every input on a 2 MB thread with the cfg(tsrun_verif) token counter and a work budget (the stack-bound inputs once more with tsrun built without optimisation on a 1.75 MB thread): 70 nesting/chain families up to 200000 levels, products of 15 recursive constructs x 8 loop-built chains with chain lengths up to the limit, random trees whose accept/refuse verdict is compared with the model's accounting (doubling sizes: growth at most quadratic; acceptance monotone), "
             "random skeletons rendered in 9 syntactic families (work <= K x model cost), prefixes and single-token mutations of valid programs, token soups, random bytes, truncated-construct corpus: outcome must be accept or a syntax/compile error value.",
     "note": "The work unit of the model (construct visit) and of the code (lexer token) are related by calibrated constants; the depth guard is a byte budget in the code and a level count in the model. Totality outside the modelled mechanisms is searched, not proved.",
     "design_ref": "DESIGN.md §4 C05",
@@ -188,10 +191,12 @@ CHECKS["C17"] = {
     "design_ref": "DESIGN.md §4 C17",
 }
 CHECKS["C01"] = {
-    "technique": "Lean 4 proof over M-Pratt (the precedence-climbing loop, for every operator table and every expression tree; the table of the current source is regenerated from parser.rs and proved order-isomorphic to ECMA-262's), M-Ops (ECMAScript operators and coercions on primitives) and M-Ctl (completion-record semantics of blocks, loops, labels, switch, try/catch/finally, temporal dead zone) + correspondence of both models with tsrun on exhaustive operand cross products and Lean-generated programs + differential against a reference engine (node, or golden outputs recorded from it) over operators x operand shapes, the built-in library and feature programs + reference-free equivalence of spellings",
+    "technique": "Lean 4 proof over M-Pratt (the precedence-climbing loop, for every operator table and every expression tree; the table of the current source is regenerated from parser.rs and proved order-isomorphic to ECMA-262's), M-Lib (relative-index arithmetic of the array/string built-ins for all lists and all arguments), M-Ops (ECMAScript operators and coercions on primitives) and M-Ctl (completion-record semantics of blocks, loops, labels, switch, try/catch/finally, temporal dead zone) + correspondence of both models with tsrun on exhaustive operand cross products and Lean-generated programs + differential against a reference engine (node, or golden outputs recorded from it) over operators x operand shapes, the built-in library and feature programs + reference-free equivalence of spellings",
     "text": "parse_minimal_parens / parse_wellformed (for every operator table and every expression tree of any size, the Pratt loop recovers the tree from its minimally parenthesised token list), parse_order_iso (the parse depends on the table only through the order of its numbers and the associativity flags), "
             "table_is_spec + gen_parses_as_spec (the 25-row table, the break test, the next_prec rule, the logical-operator mapping and the prefix operators regenerated from src/parser.rs by bin/extract parse EVERY token list exactly as ECMA-262's nesting of productions does) are Lean theorems; "
             "the model with the regenerated table is compared with the real parser on all 625 operator pairs and 3000 (quick) / 40000 (thorough) random and malformed token lists, the real parser with the model under the specification's table, and every text with its fully parenthesised tree by evaluation. "
+            "M-Lib: slice_contiguous / slice_length / slice_last / splice_partition / splice_lengths / fill_get / with_isSome_iff / indexOf_first / substring_swap / padStart_length ... (27 theorems: the relative-index arithmetic of slice, splice, at, with, fill, copyWithin, indexOf, "
+            "lastIndexOf, substring, substr, charAt, padStart/End, repeat for every list of any length and every argument - absent, NaN, +-Infinity, every integer, every non-integral number); M-Lib is compared with tsrun and the reference engine on every list up to length 5 x the boundary argument set (33k quick / 93k thorough calls). "
             "Symmetry of ==/===, NaN and null/undefined rules, string concatenation, commutativity of number addition, the equivalent spellings (+v = v-0 = v*1, -v = v*-1 but not 0-v, a>b = b<a, != = !==) are Lean theorems over all values; "
             "that a finally block keeps the pending completion when it ends normally and overrides it otherwise, that catch binds the thrown value, that break/continue reach exactly their own label and that a block-level let shadows from the start of its block (TDZ) "
             "are Lean theorems over all programs, states and fuel. M-Ops is compared with tsrun on every pair of 45+ primitive operands x 14 binary and 5 unary operators; M-Ctl on 400 (quick) / 6000 (thorough) programs generated in Lean. "
